@@ -19,7 +19,12 @@ Local Open Scope N_scope.
 Inductive probe :=
 | PDb (o : dopts) (a : action) (obs : list item)
 | PTxn (readTs : N) (pw : list rec) (o : topts) (a : action) (obs : list item)
-| PGets (readTs : N) (pw : list rec) (obs : list (bytes * option bytes)).
+| PGets (readTs : N) (pw : list rec) (obs : list (bytes * option bytes))
+(* the positioning operations (each followed by that many Next calls) performed on the
+   same iterator BEFORE the probe's own positioning operation.  Seek and Rewind
+   re-position every source and reset lastKey / seekOutOfRange, so the model of
+   the final listing - like its specification - depends on the last one only. *)
+| PSeq (pre : list (action * N)) (p : probe).
 
 Record case := { c_now : N; c_st : state; c_ws : list rec; c_probes : list probe }.
 
@@ -98,8 +103,9 @@ Definition classify_scan (s : state) (kind : N) (readTs : N) (pw : list rec) (rv
             && forallb (fun u => has_dup s (sbase u) || multi_visible s readTs pw u) bad then 3
     else 0.
 
-Definition probe_verdict (now : N) (s : state) (ws : list rec) (p : probe) : bool * bool * N :=
+Fixpoint probe_verdict (now : N) (s : state) (ws : list rec) (p : probe) : bool * bool * N :=
   match p with
+  | PSeq _ p' => probe_verdict now s ws p'
   | PDb o a obs =>
       let m := db_list current now s o a in
       let sp := spec_scan now ws [] max_u64 (sopts_of_d o a) in
@@ -157,6 +163,7 @@ Definition Ot (rv allv keyonly pik : bool) (prefix : string) (since : N) (lo hi 
   {| o_rev := rv; o_all := allv; o_keyonly := keyonly; o_pik := pik; o_prefix := unhex prefix; o_since := since;
      o_lower := unhex lo; o_upper := unhex hi |}.
 Definition Sk (k : string) : action := ASeek (unhex k).
+Definition Pre (a : action) (n : N) : action * N := (a, n).
 Definition Gk (k : string) (o : option string) : bytes * option bytes := (unhex k, option_map unhex o).
 Definition Cs (now : N) (s : state) (ws : list rec) (ps : list probe) : case :=
   {| c_now := now; c_st := s; c_ws := ws; c_probes := ps |}.
